@@ -110,6 +110,13 @@ def main(argv=None):
         with open(p) as f:
             ev = json.load(f)
         ev["coverage"]["selftest"] = st
+        try:
+            from .sweep import sample_for_property
+            ms = sample_for_property(pid, seed)
+            ev["coverage"]["mutation_sample"] = ms
+            print("%s mutation sample: %d of %d sampled first-order mutants of %s reported (%d not reported, %d analysis-error)" % (pid, ms["reported"], ms["sampled"], ",".join(ms["files"]), ms["not_reported"], ms["analysis_error"]))
+        except Exception as e:   # noqa - an aid, never a verdict
+            ev["coverage"]["mutation_sample"] = {"error": str(e)}
         ev["wall_s"] = round(ev["wall_s"] + st.get("wall_s", 0), 3)
         with open(p, "w") as f:
             json.dump(ev, f, indent=1)
